@@ -216,5 +216,71 @@ Proof.
       match goal with H : _ ++ [_] = [] |- _ => destruct (app_cons_not_nil _ _ _ (eq_sym H)) end.
     + intros x [<-|[]]. left. exists []. left. reflexivity.
 Qed.
+
+(* ---------- fuel sufficiency: the search never runs out of fuel on a finite node universe ---------- *)
+Variable U : list V.
+Hypothesis succ_in_U : forall x l y, In (l, y) (succ x) -> In y U.
+
+Lemma expand_node_size cur p es tgt vis acc :
+  NoDup vis -> (forall l y, In (l, y) es -> In y U) -> (forall x, In x vis -> In x U) ->
+  match expand_node cur p es tgt vis acc with
+  | (Some _, _, _) => True
+  | (None, vis', acc') => NoDup vis' /\ (forall x, In x vis' -> In x U) /\
+                          length vis' + length acc = length vis + length acc'
+  end.
+Proof.
+  revert vis acc. induction es as [|[l n] r IH]; intros vis acc Hnd Hes HU; cbn [expand_node].
+  - auto.
+  - destruct (mem n vis) eqn:Em.
+    + apply IH; auto. intros; eapply Hes; right; eauto.
+    + destruct (eqb_spec n tgt); [exact I|].
+      assert (~ In n vis) by (rewrite <- mem_In, Em; discriminate).
+      specialize (IH (n :: vis) (acc ++ [(n, p ++ [(cur, l, n)])])).
+      destruct (expand_node cur p r tgt (n :: vis) (acc ++ [(n, p ++ [(cur, l, n)])])) as [[[q|] v'] a']; [exact I|].
+      destruct IH as (I1 & I2 & I3).
+      * constructor; assumption.
+      * intros; eapply Hes; right; eauto.
+      * intros x [<-|Hx]; [eapply Hes; left; reflexivity | auto].
+      * repeat split; auto. rewrite app_length in I3. cbn in I3. lia.
+Qed.
+
+Lemma expand_frontier_size fr tgt vis acc :
+  NoDup vis -> (forall x, In x vis -> In x U) ->
+  match expand_frontier fr tgt vis acc with
+  | (Some _, _, _) => True
+  | (None, vis', acc') => NoDup vis' /\ (forall x, In x vis' -> In x U) /\
+                          length vis' + length acc = length vis + length acc'
+  end.
+Proof.
+  revert vis acc. induction fr as [|[c p] r IH]; intros vis acc Hnd HU; cbn [expand_frontier]; [auto|].
+  pose proof (expand_node_size c p (succ c) tgt vis acc Hnd (fun l y H => succ_in_U c l y H) HU) as HN.
+  destruct (expand_node c p (succ c) tgt vis acc) as [[[q|] v1] a1]; [exact I|].
+  destruct HN as (N1 & N2 & N3).
+  specialize (IH v1 a1 N1 N2).
+  destruct (expand_frontier r tgt v1 a1) as [[[q|] v2] a2]; [exact I|].
+  destruct IH as (I1 & I2 & I3). repeat split; auto. lia.
+Qed.
+
+Theorem bfs_fuel fuel : forall fr tgt vis,
+  NoDup vis -> (forall x, In x vis -> In x U) -> length U < fuel + length vis ->
+  bfs fuel fr tgt vis <> OutOfFuel.
+Proof.
+  induction fuel as [|fuel IH]; intros fr tgt vis Hnd HU Hlen.
+  - exfalso. pose proof (NoDup_incl_length Hnd HU). lia.
+  - cbn [bfs]. pose proof (expand_frontier_size fr tgt vis [] Hnd HU) as HS.
+    destruct (expand_frontier fr tgt vis []) as [[[q|] v'] fr']; [discriminate|].
+    destruct HS as (S1 & S2 & S3). destruct fr' as [|f0 fr']; [discriminate|].
+    apply IH; auto. cbn in S3. lia.
+Qed.
+
+Theorem find_path_total a b : In a U -> find_path (S (length U)) a b <> OutOfFuel.
+Proof.
+  intros Ha. unfold find_path. destruct (eqb_spec a b); [discriminate|].
+  apply bfs_fuel.
+  - constructor; [intros []|constructor].
+  - intros x [<-|[]]; assumption.
+  - cbn. lia.
+Qed.
 End BFS.
 Print Assumptions find_path_correct.
+Print Assumptions find_path_total.
